@@ -700,6 +700,28 @@ def argless_under_switch(items, rng, n):
     return out
 
 
+def reserved_name_cases(rng, n):
+    """inputs whose own names collide with the names the templates use: a lifetime called 'o2o, fields / parameters called value,
+    other, obj, self-like paths.  What is generated for them may not compile - C19 only asks that it is the same every time, and the
+    correspondence that model and implementation agree on it"""
+    import re as _re
+    out = []
+    base = c11_cases(rng, n)
+    for i, it in enumerate(base):
+        text = it.render()
+        r = rng.random()
+        if r < 0.6:
+            text = _re.sub(r"'a\b", "'o2o", text)
+            if "'o2o" not in text:
+                text = text.replace('struct S<', "struct S<'o2o, ", 1) if 'struct S<' in text else text.replace('struct S', "struct S<'o2o>", 1)
+        elif r < 0.8:
+            text = _re.sub(r"\bT\b", "value", text)
+        else:
+            text = _re.sub(r"\ba\b", "other", _re.sub(r"\bb\b", "obj", text))
+        out.append(('reserved-%d' % i, text, dict(it.meta, gen='reserved_names')))
+    return out
+
+
 def toggle_parens(item):
     """C13 (OptionalParenthesizedTokenStream): an instruction without arguments written `name` <-> `name()`, bare or inside #[o2o(..)]"""
     it = item.clone()
@@ -858,6 +880,10 @@ def shortcut_items(rng, n):
         attrs = [trait_attr(tname, cp, rng.choice(['', '', ' as {}', ' as ()']))]
         if rng.random() < 0.4:
             attrs.append(trait_attr(rng.choice(shorts), 'Z', ''))
+        if rng.random() < 0.15:
+            # a second instruction for the SAME counterpart: where the two request one impl twice the input is rejected, in
+            # shortcut form exactly as written out
+            attrs.insert(rng.randrange(len(attrs) + 1), trait_attr(rng.choice(TRAIT_NAMES), cp, ''))
         if rng.random() < 0.4:
             attrs.append(Attr('ghosts', rng.choice(['gx: { 1 }', 'gx: { @.k }, gy: { 2 }', '7: { 3 }'])))
         fields = []
@@ -2788,9 +2814,11 @@ def c09_cases(rng, n):
 
         def new_pat(cp):
             if strs:
-                return rng.choice(['_', '"s1" | "s2"', '"zz"', '"s 1" | "s 2"', '"z z"'])
+                return rng.choice(['_', '"s1" | "s2"', '"zz"', '"s 1" | "s 2"', '"z z"', 'EMPTY'])
             a = rng.randrange(0, 10)
-            return rng.choice(['_', '%d..=%d' % (a, a + rng.randrange(0, 5)), '%d | %d' % (a, a + 2), '%d..' % a, 'i32::MIN..=-1' if cp == 'i32' else '200..=255'])
+            # a lone identifier may name a constant: a refutable pattern like any literal
+            return rng.choice(['_', '%d..=%d' % (a, a + rng.randrange(0, 5)), '%d | %d' % (a, a + 2), '%d..' % a, 'i32::MIN..=-1' if cp == 'i32' else '200..=255',
+                               'LIMIT', 'Kc::TOP'])
 
         for j in range(k):
             r = rng.random()
@@ -2863,6 +2891,8 @@ def c11_cases(rng, n):
     kinds = BASIC + [try_name(b) for b in BASIC] + ['map', 'into_existing']
     for i in range(n):
         lts = rng.sample(['a', 'b', 'c'], rng.choice([0, 0, 1, 2]))
+        if lts and rng.random() < 0.04:
+            lts[0] = 'o2o'            # the user's own lifetime carries the name of the `fresh` one (finding F-11g)
         tys = []
         for t in rng.sample(['T', 'U'], rng.choice([0, 1, 1, 2])):
             tys.append((t, rng.choice(['', ': Clone', ': Clone + Into<u8>', ': ?Sized', " : 'static"]), rng.choice(['', '', ' = u8']) ))
